@@ -134,6 +134,7 @@ def _identity(f):
 class C(object):
     def __init__(self, tag):
         self.tag = tag
+    EQUALITY
     def target(self, x, y=2):
         return ('target', self.tag, x, y)
     @DECO
@@ -148,6 +149,7 @@ from sigtools import modifiers
 class C(object):
     def __init__(self, tag):
         self.tag = tag
+    EQUALITY
     def target(self, x, y=2):
         return ('target', self.tag, x, y)
     DECO
@@ -165,13 +167,17 @@ _DECOS = {
 }
 
 
-def _make_class(kind, stacked=False):
+_EQ = 'def __eq__(self, other):\n        return type(other) is type(self)\n    def __hash__(self):\n        return 7'
+
+
+def _make_class(kind, stacked=False, equal=False):
     import linecache
     if kind == 'pok':
         src = _SRC_POK.replace('DECO', ("@modifiers.kwoargs('b')\n    " if stacked else '') + "@modifiers.kwoargs('a')")
     else:
         src = _SRC.replace('DECO', _DECOS[kind])
-    fname = '<symx-c18-%s>' % kind
+    src = src.replace('EQUALITY', _EQ if equal else 'pass_through = None')
+    fname = '<symx-c18-%s-%d>' % (kind, equal)
     linecache.cache[fname] = (len(src), None, src.splitlines(True), fname)
     ns = {'__name__': 'c18_' + kind.replace('-', '_')}
     exec(compile(src, fname, 'exec'), ns)
@@ -195,6 +201,7 @@ def _retag(ret, tag):
 
 def h_history(ctx, cfg):
     kind = KINDS[sym.pick(len(KINDS), 'kind')]
+    equal = sym.flip('equal-instances') if (cfg.get('equal_instances', True) and kind == 'pok') else False
     L = cfg['L']
     steps = []
     for _ in range(L):
@@ -206,11 +213,11 @@ def h_history(ctx, cfg):
         else:
             steps.append((op, sym.pick(2, 'inst')))
     with sym.notrace():
-        ctx.case('%s: %s' % (kind, ' '.join('%s%s' % (o, '' if i is None else i) for o, i in steps)), nontrivial=True)
-        cls = _make_class(kind)
+        ctx.case('%s%s: %s' % (kind, ' (instances compare equal)' if equal else '', ' '.join('%s%s' % (o, '' if i is None else i) for o, i in steps)), nontrivial=True)
+        cls = _make_class(kind, equal=equal)
         refs_by_state = {}
         for stacked in ((False, True) if kind == 'pok' else (False,)):
-            ref_cls = _make_class(kind, stacked)
+            ref_cls = _make_class(kind, stacked, equal=equal)
             ref_inst = ref_cls(9)
             a0, k0 = _call_args(kind)
             try:
